@@ -37,6 +37,13 @@ func (h *Header) Hash() common.Hash {
 func (h Header) ValidateBasic() error {
 	number := h.Height.RevisionHeight
 
+	// Check that the logs bloom and the nonce fit, ToBscHeader panics otherwise
+	if len(h.Bloom) > bloomByteLength {
+		return fmt.Errorf("invalid bloom length: have %d, max %d", len(h.Bloom), bloomByteLength)
+	}
+	if len(h.Nonce) > nonceByteLength {
+		return fmt.Errorf("invalid nonce length: have %d, max %d", len(h.Nonce), nonceByteLength)
+	}
 	// Check that the extra-data contains the vanity, validators and signature.
 	if len(h.Extra) < extraVanity {
 		return sdkerrors.Wrap(ErrMissingVanity, "header Extra")
